@@ -131,6 +131,25 @@ def run(ck):
     ck.ob('MPT-all-atoms', mod.loc(ann), ok, 'every modification request is looked up among the modifications and every mutation among the blocks of the force field, unconditionally',
           key='MPT-all-atoms|all-requests')
 
+    # every request given to the processor is kept
+    init = ck.need(method(cls, '__init__'), 'AnnotateMutMod.__init__ vanished')
+    ck.analysed(mod, init)
+    for param, attr in (('modifications', 'self.modifications'), ('mutations', 'self.mutations')):
+        lps = [l for l in init.body if isinstance(l, ast.For) and u(l.iter) == param]
+        ok = len(lps) == 1
+        if ok:
+            app = [s_ for s_ in lps[0].body if isinstance(s_, ast.Expr) and call_attr(s_.value) == 'append' and u(s_.value.func.value) == attr]
+            a0, a1 = [u(e) for e in lps[0].target.elts] if isinstance(lps[0].target, ast.Tuple) else ('?', '?')
+            ok = len(app) == 1 and len(lps[0].body) == 1 and u(app[0].value.args[0]) == '(parse_residue_spec({}), {})'.format(a0, a1)
+        ck.ob('MPT-all-requests', mod.loc(init), ok, 'every {} request handed to the processor is parsed and kept, whatever its target'.format(param[:-1]), key='MPT-all-requests|' + param)
+    rmm = ck.need(method(cls, 'run_molecule'), 'AnnotateMutMod.run_molecule vanished')
+    ck.ob('MPT-all-requests', mod.loc(rmm), 'annotate_modifications(molecule, self.modifications, self.mutations, self.resspec_counts)' in u(rmm),
+          'and all of them are applied to every molecule', key='MPT-all-requests|run_molecule')
+    # all residues are tried for every request (no early exit from the residue loop)
+    rl = [l for l in resiter.body if isinstance(l, ast.For) and u(l.iter) == 'residue_graph']
+    ok = len(rl) == 1 and not any(isinstance(n, (ast.Break, ast.Return)) for n in ast.walk(rl[0]))
+    ck.ob('MPT-all-atoms', mod.loc(resiter), ok, 'the residue loop runs over all residues: several residues can match one request (e.g. insertion codes)', key='MPT-all-atoms|no-early-exit')
+
     # ------------------------------------------------------------ DT: terminal rule
     rets = stmts_with_env(term, lambda s: isinstance(s, ast.Return))
     by = {}
